@@ -684,7 +684,70 @@ fn fuzz_one(lang: usize, text: &str, alias_set: usize) -> u8 {
     }
 }
 
-fn child_main(path: &str) {
+/// One alias case (generation + real parse + real expansion), as the fields the parent emits.
+struct AliasCase {
+    term: String,
+    nontrivial: bool,
+    shape: String,
+    panicked: bool,
+    note: String,
+}
+
+fn alias_case(i: usize, mut rng: Rng) -> AliasCase {
+    let lang = rng.below(3) as usize;
+    let specs = gen_aliases(lang, &mut rng);
+    let d = 1 + rng.below(3) as u32;
+    let mut text = gen_expr(lang, &mut rng, d);
+    if !specs.is_empty() && rng.chance(1, 3) {
+        // make sure some alias is actually used
+        let op = if lang == 2 { " ++ " } else { " | " };
+        text = format!("({text}){op}{}", reference(&rng.pick(&specs).decl));
+    }
+    let text: &'static str = leak(text);
+    let mut it = Interner::default();
+    let run = match lang {
+        0 => {
+            let locals: Vec<(&'static str, &'static str)> = if rng.chance(1, 4) {
+                let k = *rng.pick(&["x", "A", "p", "y"]);
+                vec![(k, leak(gen_expr(0, &mut rng, 1)))]
+            } else {
+                vec![]
+            };
+            run_revset(text, &specs, &locals, &mut it)
+        }
+        1 => run_fileset(text, &specs, &mut it),
+        _ => run_template(text, &specs, &mut it),
+    };
+    let panicked = run.class == "panic";
+    let note = if panicked {
+        format!("alias case {i} ({}): panic on input hex {}", LANGS[lang], hex(text))
+    } else {
+        String::new()
+    };
+    let Some(input) = run.input else {
+        // generator produced text the parser rejects: recorded as a fuzz-stream error
+        return AliasCase {
+            term: format!("(CFuzz {lang} {} 1)", text.len()),
+            nontrivial: false,
+            shape: format!("gen-noparse {}", LANGS[lang]),
+            panicked,
+            note,
+        };
+    };
+    AliasCase {
+        term: format!("(CAlias {lang} {} {} {} {})", run.am, run.outer, input, run.result),
+        nontrivial: !specs.is_empty() && run.class != "ok" || run.result.contains("EExpanded"),
+        shape: format!("alias {} {}", LANGS[lang], run.class),
+        panicked,
+        note,
+    }
+}
+
+/// Child process: works through the lines of the job file from JJV_C36_START on, announcing
+/// every item ("S k") before it runs it and reporting its result ("R k payload"), in a thread
+/// with a fixed 8 MiB stack.  `alias` selects the alias stream (lines "index<TAB>rng state"),
+/// otherwise the fuzz stream (lines "lang<TAB>alias set<TAB>hex text").
+fn child_main(path: &str, alias: bool) {
     std::panic::set_hook(Box::new(|_| {}));
     let inputs: Vec<String> = std::fs::read_to_string(path).unwrap().lines().map(|l| l.to_string()).collect();
     let start: usize = std::env::var("JJV_C36_START").ok().and_then(|s| s.parse().ok()).unwrap_or(0);
@@ -692,23 +755,34 @@ fn child_main(path: &str) {
         .stack_size(8 << 20)
         .spawn(move || {
             let out = std::io::stdout();
-            for (i, line) in inputs.iter().enumerate().skip(start) {
-                let mut parts = line.split('\t');
-                let lang: usize = parts.next().unwrap().parse().unwrap();
-                let aset: usize = parts.next().unwrap().parse().unwrap();
-                let text = unhex(parts.next().unwrap_or(""));
+            for (k, line) in inputs.iter().enumerate().skip(start) {
                 {
                     let mut o = out.lock();
-                    writeln!(o, "S {i}").unwrap();
+                    writeln!(o, "S {k}").unwrap();
                     o.flush().unwrap();
                 }
-                let r = std::panic::catch_unwind(|| fuzz_one(lang, &text, aset));
-                let code = match r {
-                    Ok(c) => c,
-                    Err(_) => 2,
+                // self-test of the crash handling: JJV_C36_SELFTEST_CRASH=<item> aborts there
+                if std::env::var("JJV_C36_SELFTEST_CRASH").ok().as_deref() == Some(&k.to_string()) {
+                    std::process::abort();
+                }
+                let mut parts = line.split('\t');
+                let payload = if alias {
+                    let i: usize = parts.next().unwrap().parse().unwrap();
+                    let state: u64 = parts.next().unwrap().parse().unwrap();
+                    let c = alias_case(i, Rng(state));
+                    format!("{}\t{}\t{}\t{}\t{}", c.nontrivial, c.panicked, c.shape, c.note, c.term)
+                } else {
+                    let lang: usize = parts.next().unwrap().parse().unwrap();
+                    let aset: usize = parts.next().unwrap().parse().unwrap();
+                    let text = unhex(parts.next().unwrap_or(""));
+                    let r = std::panic::catch_unwind(|| fuzz_one(lang, &text, aset));
+                    match r {
+                        Ok(c) => c.to_string(),
+                        Err(_) => "2".to_string(),
+                    }
                 };
                 let mut o = out.lock();
-                writeln!(o, "R {i} {code}").unwrap();
+                writeln!(o, "R {k} {payload}").unwrap();
                 o.flush().unwrap();
             }
         })
@@ -716,20 +790,21 @@ fn child_main(path: &str) {
     let _ = handle.join();
 }
 
-/// Runs all fuzz inputs in child processes; returns the outcome code per input.
-fn run_fuzz(inputs: &[(usize, usize, String)], scratch: &std::path::Path) -> Vec<u8> {
-    let path = scratch.join("fuzz_inputs.tsv");
-    let mut f = std::fs::File::create(&path).unwrap();
-    for (lang, aset, text) in inputs {
-        writeln!(f, "{lang}\t{aset}\t{}", hex(text)).unwrap();
-    }
-    drop(f);
-    let mut outcomes = vec![255u8; inputs.len()];
+enum Item {
+    Done(String),
+    Crash,
+    Timeout,
+}
+
+/// Runs the `n` items of a job file in child processes (restarted after a crash or a watchdog
+/// kill); returns what became of every item.
+fn run_children(env_key: &str, path: &std::path::Path, n: usize, watchdog_secs: u64) -> Vec<Item> {
+    let mut results: Vec<Option<Item>> = (0..n).map(|_| None).collect();
     let mut start = 0;
     let exe = std::env::current_exe().unwrap();
-    while start < inputs.len() {
+    while start < n {
         let mut child = Command::new(&exe)
-            .env("JJV_C36_CHILD", &path)
+            .env(env_key, path)
             .env("JJV_C36_START", start.to_string())
             .stdout(Stdio::piped())
             .stderr(Stdio::null())
@@ -745,35 +820,36 @@ fn run_fuzz(inputs: &[(usize, usize, String)], scratch: &std::path::Path) -> Vec
             }
         });
         let mut current: Option<usize> = None;
-        let mut next_start = inputs.len();
+        let mut next_start = n;
         loop {
-            // watchdog: 20 s per input
-            match rx.recv_timeout(Duration::from_secs(20)) {
+            match rx.recv_timeout(Duration::from_secs(watchdog_secs)) {
                 Ok(line) => {
-                    let mut p = line.split(' ');
-                    match (p.next(), p.next(), p.next()) {
-                        (Some("S"), Some(i), _) => current = i.parse().ok(),
-                        (Some("R"), Some(i), Some(c)) => {
-                            let i: usize = i.parse().unwrap();
-                            outcomes[i] = c.parse().unwrap();
-                            current = None;
+                    if let Some(rest) = line.strip_prefix("S ") {
+                        current = rest.trim().parse().ok();
+                    } else if let Some(rest) = line.strip_prefix("R ") {
+                        if let Some((k, payload)) = rest.split_once(' ') {
+                            if let Ok(k) = k.parse::<usize>() {
+                                if k < n {
+                                    results[k] = Some(Item::Done(payload.to_string()));
+                                }
+                                current = None;
+                            }
                         }
-                        _ => {}
                     }
                 }
                 Err(mpsc::RecvTimeoutError::Timeout) => {
                     let _ = child.kill();
-                    if let Some(i) = current {
-                        outcomes[i] = 4;
-                        next_start = i + 1;
+                    if let Some(k) = current {
+                        results[k] = Some(Item::Timeout);
+                        next_start = k + 1;
                     }
                     break;
                 }
                 Err(mpsc::RecvTimeoutError::Disconnected) => {
-                    // child ended: normally, or it crashed in the middle of input `current`
-                    if let Some(i) = current {
-                        outcomes[i] = 3;
-                        next_start = i + 1;
+                    // child ended: normally, or it crashed in the middle of item `current`
+                    if let Some(k) = current {
+                        results[k] = Some(Item::Crash);
+                        next_start = k + 1;
                     }
                     break;
                 }
@@ -781,20 +857,44 @@ fn run_fuzz(inputs: &[(usize, usize, String)], scratch: &std::path::Path) -> Vec
         }
         let _ = child.wait();
         let _ = reader.join();
+        if next_start == n {
+            // a child that died before announcing an item leaves it unprocessed: count the first
+            // such item as a crash and go on after it
+            if let Some(k) = results.iter().position(|r| r.is_none()) {
+                results[k] = Some(Item::Crash);
+                next_start = k + 1;
+            }
+        }
         start = next_start;
     }
-    // a child that died before announcing an input leaves it unprocessed: count as a crash
-    for o in &mut outcomes {
-        if *o == 255 {
-            *o = 3;
-        }
+    results.into_iter().map(|r| r.unwrap_or(Item::Crash)).collect()
+}
+
+/// Runs all fuzz inputs in child processes; returns the outcome code per input.
+fn run_fuzz(inputs: &[(usize, usize, String)], scratch: &std::path::Path) -> Vec<u8> {
+    let path = scratch.join("fuzz_inputs.tsv");
+    let mut f = std::fs::File::create(&path).unwrap();
+    for (lang, aset, text) in inputs {
+        writeln!(f, "{lang}\t{aset}\t{}", hex(text)).unwrap();
     }
-    outcomes
+    drop(f);
+    run_children("JJV_C36_CHILD", &path, inputs.len(), 20)
+        .into_iter()
+        .map(|r| match r {
+            Item::Done(p) => p.trim().parse().unwrap_or(3),
+            Item::Crash => 3,
+            Item::Timeout => 4,
+        })
+        .collect()
 }
 
 fn main() {
     if let Ok(path) = std::env::var("JJV_C36_CHILD") {
-        child_main(&path);
+        child_main(&path, false);
+        return;
+    }
+    if let Ok(path) = std::env::var("JJV_C36_ALIAS") {
+        child_main(&path, true);
         return;
     }
     jjv::run("C36", "C36", |ctx| {
@@ -803,6 +903,7 @@ fn main() {
         const FUZZ_BATCH: usize = 16;
         let mut fuzz_inputs: Vec<(usize, usize, String)> = vec![];
         let mut fuzz_index: Vec<usize> = vec![];
+        let mut alias_index: Vec<usize> = vec![];
         for i in ctx.indices() {
             if i % 5 >= 3 {
                 let mut rng = ctx.rng(i);
@@ -812,9 +913,12 @@ fn main() {
                     fuzz_inputs.push((lang, aset, gen_fuzz_input(lang, &mut rng)));
                 }
                 fuzz_index.push(i);
+            } else {
+                alias_index.push(i);
             }
         }
-        let outcomes = run_fuzz(&fuzz_inputs, &ctx.scratch.clone());
+        let scratch = ctx.scratch.clone();
+        let outcomes = run_fuzz(&fuzz_inputs, &scratch);
         let mut fuzz_results: HashMap<usize, (usize, usize, u8)> = HashMap::new();
         for (b, i) in fuzz_index.iter().enumerate() {
             let mut worst = 0u8;
@@ -827,14 +931,24 @@ fn main() {
                     accepted += 1;
                 }
                 // severity: panic/crash > timeout > err > ok
-                let sev = |x: u8| match x { 2 | 3 => 3, 4 => 2, 1 => 1, _ => 0 };
+                let sev = |x: u8| match x {
+                    2 | 3 => 3,
+                    4 => 2,
+                    1 => 1,
+                    _ => 0,
+                };
                 if sev(o) > sev(worst) {
                     worst = o;
                 }
                 if o >= 2 {
                     ctx.note(format!(
                         "fuzz case {} input {} ({}; alias set {}): outcome {} text hex {}",
-                        i, k - b * FUZZ_BATCH, LANGS[fuzz_inputs[k].0], fuzz_inputs[k].1, o, hex(&fuzz_inputs[k].2)
+                        i,
+                        k - b * FUZZ_BATCH,
+                        LANGS[fuzz_inputs[k].0],
+                        fuzz_inputs[k].1,
+                        o,
+                        hex(&fuzz_inputs[k].2)
                     ));
                     if o == 2 || o == 3 {
                         ctx.panicked();
@@ -845,54 +959,58 @@ fn main() {
             let code = if worst >= 2 { worst } else if accepted > 0 { 0 } else { 1 };
             fuzz_results.insert(*i, (fuzz_inputs[b * FUZZ_BATCH].0, total_len, code));
         }
-        ctx.note("fuzzing part: seeded character soups, mutated valid expressions, nesting capped at 8, \
-                  length capped at 200 bytes, 4 fixed alias sets incl. recursive and ill-formed ones; \
+        ctx.note("fuzzing part: seeded character soups with hostile snippets, mutated valid expressions, nesting \
+                  capped at 8, length capped at 200 bytes, 4 fixed alias sets incl. recursive and ill-formed ones; \
                   child process, catch_unwind, 8 MiB stack, 20 s watchdog per input");
-        // ---- alias stream and emission
+        // ---- alias stream: also in a child process (a missing recursion check would overflow the
+        // stack, which no catch_unwind can turn into a value)
+        let alias_path = scratch.join("alias_jobs.tsv");
+        {
+            let mut f = std::fs::File::create(&alias_path).unwrap();
+            for i in &alias_index {
+                writeln!(f, "{i}\t{}", ctx.rng(*i).0).unwrap();
+            }
+        }
+        let alias_items = run_children("JJV_C36_ALIAS", &alias_path, alias_index.len(), 60);
+        let mut alias_results: HashMap<usize, Item> = alias_index.iter().copied().zip(alias_items).collect();
+        // ---- emission, in index order
         for i in ctx.indices() {
             if let Some((lang, len, o)) = fuzz_results.get(&i) {
                 let term = format!("(CFuzz {lang} {len} {o})");
-                let shape = format!("fuzz {} {}", LANGS[*lang], ["ok", "err", "PANIC", "CRASH", "timeout"][(*o).min(4) as usize]);
+                let shape =
+                    format!("fuzz {} {}", LANGS[*lang], ["ok", "err", "PANIC", "CRASH", "timeout"][(*o).min(4) as usize]);
                 ctx.emit(i, term, *o == 0, &shape);
                 continue;
             }
-            let mut rng = ctx.rng(i);
-            let lang = rng.below(3) as usize;
-            let specs = gen_aliases(lang, &mut rng);
-            let d = 1 + rng.below(3) as u32;
-            let mut text = gen_expr(lang, &mut rng, d);
-            if !specs.is_empty() && rng.chance(1, 3) {
-                // make sure some alias is actually used
-                let op = if lang == 2 { " ++ " } else { " | " };
-                text = format!("({text}){op}{}", reference(&rng.pick(&specs).decl));
-            }
-            let text: &'static str = leak(text);
-            let mut it = Interner::default();
-            let run = match lang {
-                0 => {
-                    let locals: Vec<(&'static str, &'static str)> = if rng.chance(1, 4) {
-                        let k = *rng.pick(&["x", "A", "p", "y"]);
-                        vec![(k, leak(gen_expr(0, &mut rng, 1)))]
-                    } else {
-                        vec![]
-                    };
-                    run_revset(text, &specs, &locals, &mut it)
+            match alias_results.remove(&i) {
+                Some(Item::Done(payload)) => {
+                    let mut p = payload.splitn(5, '\t');
+                    let nontrivial = p.next() == Some("true");
+                    let panicked = p.next() == Some("true");
+                    let shape = p.next().unwrap_or("alias ?").to_string();
+                    let note = p.next().unwrap_or("").to_string();
+                    let term = p.next().unwrap_or("(CFuzz 0 0 3)").to_string();
+                    if panicked {
+                        ctx.panicked();
+                    }
+                    if !note.is_empty() {
+                        ctx.note(note);
+                    }
+                    ctx.emit(i, term, nontrivial, &shape);
                 }
-                1 => run_fileset(text, &specs, &mut it),
-                _ => run_template(text, &specs, &mut it),
-            };
-            if run.class == "panic" {
-                ctx.panicked();
-                ctx.note(format!("alias case {i} ({}): panic on input {:?}", LANGS[lang], text));
+                Some(Item::Timeout) => {
+                    ctx.note(format!("alias case {i}: watchdog timeout (60 s)"));
+                    ctx.emit(i, "(CFuzz 0 0 4)".to_string(), false, "alias timeout");
+                }
+                _ => {
+                    ctx.panicked();
+                    ctx.note(format!(
+                        "alias case {i}: the child process crashed (stack overflow / abort) while parsing or expanding; \
+                         replay with --only {i}"
+                    ));
+                    ctx.emit(i, "(CFuzz 0 0 3)".to_string(), false, "alias CRASH");
+                }
             }
-            let Some(input) = run.input else {
-                // generator produced text the parser rejects: recorded as a fuzz-stream error
-                ctx.emit(i, format!("(CFuzz {lang} {} 1)", text.len()), false, &format!("gen-noparse {}", LANGS[lang]));
-                continue;
-            };
-            let term = format!("(CAlias {lang} {} {} {} {})", run.am, run.outer, input, run.result);
-            let shape = format!("alias {} {}", LANGS[lang], run.class);
-            ctx.emit(i, term, !specs.is_empty() && run.class != "ok" || run.result.contains("EExpanded"), &shape);
         }
     });
 }
